@@ -277,9 +277,10 @@ impl Check for SmallLinear {
 }
 
 // ---------------------------------------------------------------- curve fits
-const MODELS: [&str; 7] = ["p0*x", "p0+p1*x", "p0+p1*x+p2*x^2", "p0+p1*sin+p2*cos+p3*sin2x", "p0*exp(p1*x)", "p0*exp(-(x-p1)^2/(2 p2^2))", "p0/(1+exp(-p1*(x-p2)))"];
+const MODELS: [&str; 8] = ["p0*x", "p0+p1*x", "p0+p1*x+p2*x^2", "p0+p1*sin+p2*cos+p3*sin2x", "p0*exp(p1*x)", "p0*exp(-(x-p1)^2/(2 p2^2))", "p0/(1+exp(-p1*(x-p2)))", "p0*exp(p1*x), fast rate"];
+const RATE7: f64 = 3.0;
 fn nparams(m: usize) -> usize {
-    [1, 2, 3, 4, 2, 3, 3][m]
+    [1, 2, 3, 4, 2, 3, 3, 2][m]
 }
 fn truth(m: usize) -> Vec<f64> {
     match m {
@@ -289,6 +290,9 @@ fn truth(m: usize) -> Vec<f64> {
         3 => vec![0.3, 1.1, -0.7, 0.4],
         4 => vec![1.3, 0.6],
         5 => vec![2.0, 0.3, 0.9],
+        // the same exponential with a rate of RATE7: the values span e^(4 x rate) over [-2, 2], Gauss-Newton steps from a
+        // start 20% off overshoot, and with little damping the sum of squares goes UP on some iterations
+        7 => vec![1.5, RATE7],
         _ => vec![3.0, 1.5, -0.2],
     }
 }
@@ -298,7 +302,7 @@ fn model(m: usize, x: f64, p: &[f64]) -> f64 {
         1 => p[0] + p[1] * x,
         2 => p[0] + p[1] * x + p[2] * x * x,
         3 => p[0] + p[1] * x.sin() + p[2] * x.cos() + p[3] * (2.0 * x).sin(),
-        4 => p[0] * (p[1] * x).exp(),
+        4 | 7 => p[0] * (p[1] * x).exp(),
         5 => p[0] * (-(x - p[1]).powi(2) / (2.0 * p[2] * p[2])).exp(),
         _ => p[0] / (1.0 + (-p[1] * (x - p[2])).exp()),
     }
@@ -309,7 +313,7 @@ fn grad(m: usize, x: f64, p: &[f64]) -> Vec<f64> {
         1 => vec![1.0, x],
         2 => vec![1.0, x, x * x],
         3 => vec![1.0, x.sin(), x.cos(), (2.0 * x).sin()],
-        4 => {
+        4 | 7 => {
             let e = (p[1] * x).exp();
             vec![e, p[0] * x * e]
         }
@@ -418,7 +422,7 @@ impl Check for CurveFit {
     }
     fn points(&self, t: Tier) -> Vec<FitPt> {
         let mut v = vec![];
-        for model in 0..7 {
+        for model in 0..MODELS.len() {
             for &kind in &t.pick(vec![0usize, 2], vec![0, 1, 2, 3]) {
                 // (besides the listed counts: as many abscissae as parameters, and one more - but never fewer than 3)
                 let mut ns: Vec<usize> = t.pick(vec![12usize, 60], vec![5, 12, 30, 60]);
@@ -435,8 +439,19 @@ impl Check for CurveFit {
                         for start in 0..starts(model).len() {
                             for &tol in &t.pick(vec![1e-6, 1e-12], vec![1e-6, 1e-9, 1e-12]) {
                                 for &h in &t.pick(vec![1e-2], vec![1e-1, 1e-2, 1e-4]) {
-                                    for &(damping, mult) in &damp_grid(t) {
-                                        if t == Tier::Thorough && !DAMP.contains(&(damping, mult)) && (kind % 2 == 1 || n == 30 || start > 1 && model > 3) {
+                                    let mut grid = damp_grid(t);
+                                    if model == 7 {
+                                        // little damping x every multiplier: Gauss-Newton-like steps that overshoot
+                                        for &d in &[0.001, 0.01] {
+                                            for &m in &MULTS {
+                                                if !grid.contains(&(d, m)) {
+                                                    grid.push((d, m));
+                                                }
+                                            }
+                                        }
+                                    }
+                                    for &(damping, mult) in &grid {
+                                        if t == Tier::Thorough && !DAMP.contains(&(damping, mult)) && model != 7 && (kind % 2 == 1 || n == 30 || start > 1 && model > 3) {
                                             continue;
                                         }
                                         v.push(FitPt { model, kind, n, noise, start, tol, h, damping, mult });
@@ -465,7 +480,10 @@ impl Check for CurveFit {
         let target: Vec<f64> = if p.model <= 3 { svd.solve(&DVector::from_column_slice(&ys), 1e-14).unwrap().as_slice().to_vec() } else { tr.clone() };
         let pnorm = target.iter().fold(0.0f64, |m, x| m.max(x.abs()));
         let mut bound = 20.0 * p.tol.sqrt() / smin + 1e-9 * (1.0 + pnorm);
-        if p.model <= 3 && p.start >= 3 && p.start <= 4 {
+        // (the same holds, with the Jacobian at the truth, for the two starts within 2 % of the truth of the non-linear
+        // models: there the model is linear in its parameters to first order)
+        let near = if p.model <= 3 { p.start >= 3 && p.start <= 4 } else { p.start == 1 << v || p.start == (1 << v) + 1 };
+        if near {
             // Starts close to the truth: the documented stopping rule ("the sum of squares changed by at most tol")
             // can be met at once, and what it implies for the parameters depends on the damping that is still in
             // force.  For a model linear in its parameters, with A = J^T J, D = diag(A) and mu_i the eigenvalues of
